@@ -73,3 +73,53 @@ fn c07_compactsize_boundary_fanouts() {
     }
     finish(suite, cases);
 }
+
+/// C07 (bounded: two hand-made histories): (1) values far above 21 million coins (fork coins have bigger supplies; the
+/// value column is a plain u64) are listed like any other; (2) a duplicated txid (byte-identical coinbase, legal before
+/// BIP30/34) re-created AND spent inside the re-creating block leaves no row of the earlier copy behind
+#[test]
+fn c07_large_values_and_respent_duplicates() {
+    let suite = "c07_large_values_and_respent_duplicates";
+    let mut cases = 0;
+    // (1)
+    { cases += 1;
+      let vals = [5_000_000_000_000_000u64, 21_000_000 * 100_000_000 + 1, 21_000_000 * 100_000_000, u64::MAX, 700_000_000, 1u64 << 63];
+      let mut chain = make_chain(3, &mut |h| if h == 1 { vec![TxSpec::new(vec![TxIn::new([0x21; 32], 0, vec![0x51])], vals.iter().enumerate().map(|(i, v)| TxOut::new(*v, p2pkh_script(&[0x30 + i as u8; 20]))).collect())] } else { vec![] });
+      relink(&mut chain);
+      let d = simple_dir(&chain); d.write();
+      for coin in ["bitcoin", "dogecoin"] {
+          let out = tempfile::tempdir().unwrap();
+          let m = UnspentCsvDump::build_subcommand().get_matches_from(vec!["unspentcsvdump", out.path().to_str().unwrap()]);
+          let cb = UnspentCsvDump::new(&m).unwrap();
+          let inp = format!("{}: outputs worth {:?}", coin, vals);
+          if let Err(x) = drive_with(d.path(), coin, 0, None, false, Box::new(cb)) { fail(suite, "C07:run_completes", &inp, &x, "Ok"); continue; }
+          let lines = csv_lines(&out.path().join("unspent-0-2.csv"));
+          let id = hex_rev(&chain[1].txs[1].txid());
+          for (i, v) in vals.iter().enumerate() {
+              let hit = lines.iter().any(|l| l.starts_with(&format!("{};{};1;{};", id, i, v)));
+              check(hit, suite, "C07:every_unspent_address_bearing_output_is_listed", &format!("{} output {} worth {}", inp, i, v), "no such row", "one row with that value");
+          }
+      } }
+    // (2)
+    { cases += 1;
+      let cb_tx = TxSpec::new(vec![TxIn::coinbase(7)], vec![TxOut::new(50_0000_0000, p2pkh_script(&[0xA1; 20]))]);
+      let cbid = cb_tx.txid();
+      let spend = TxSpec::new(vec![TxIn::new(cbid, 0, vec![0x51])], vec![TxOut::new(49_9999_0000, p2pkh_script(&[0xB2; 20]))]);
+      let mut chain = make_chain(3, &mut |h| if h == 2 { vec![spend.clone()] } else { vec![] });
+      chain[1].txs[0] = cb_tx.clone(); chain[2].txs[0] = cb_tx.clone();          // heights 1 and 2 carry the byte-identical coinbase
+      relink(&mut chain);
+      let d = simple_dir(&chain); d.write();
+      let out = tempfile::tempdir().unwrap();
+      let m = UnspentCsvDump::build_subcommand().get_matches_from(vec!["unspentcsvdump", out.path().to_str().unwrap()]);
+      let cb = UnspentCsvDump::new(&m).unwrap();
+      let inp = "coinbase X at height 1, the byte-identical coinbase X again at height 2 together with a transaction spending X:0";
+      match drive_with(d.path(), "bitcoin", 0, None, false, Box::new(cb)) {
+          Err(x) => fail(suite, "C07:run_completes", inp, &x, "Ok"),
+          Ok(()) => {
+              let mut got: Vec<String> = csv_lines(&out.path().join("unspent-0-2.csv")).into_iter().skip(1).collect(); got.sort();
+              let mut want: Vec<String> = ref_utxo(&chain, 0, 2).iter().map(|((t, i), (h, v, a))| format!("{};{};{};{};{}", t, i, h, v, a)).collect(); want.sort();
+              check(got == want, suite, "C07:nothing_else_is_listed", inp, &format!("{:?}", got), &format!("{:?}", want));
+          }
+      } }
+    finish(suite, cases);
+}
